@@ -350,6 +350,8 @@ def judge(cmd, ans, seed):
             if got != args_base:
                 if arch == 2:
                     k = "fp-relative-arg-offset" if (has_fp and r["sa_reg"] == fp and m.regs[0][fp] + r["pp_size"] == args_base) else "sa-reg-not-initialised"
+                    if cc > 7 and r["srsize"][1] == 16 and m.regs[0][r["sa_reg"]] == spb + r["adj"] and r["sa_from_sa"] == r["pp_size"]:
+                        k = "non-cdecl-save-area-size-mismatch"   # register set up, offset = push/pop size, but PrologEpilogInfo used another size
                 else:
                     k = "stack-args-offset-sa"
                 out.append((key(k), desc("stack arguments are at %#x, [saReg %d + %d] is %#x" % (args_base, r["sa_reg"], r["sa_from_sa"], got))))
@@ -360,6 +362,8 @@ def judge(cmd, ans, seed):
             got = (m.regs[0][fp] + r["sa_from_sa"]) & wmask
             if got != args_base:
                 k = "fp-relative-arg-offset" if arch == 2 else "stack-args-offset-fp"
+                if arch == 2 and cc > 7 and r["srsize"][1] == 16 and r["sa_from_sa"] == r["pp_size"]:
+                    k = "non-cdecl-save-area-size-mismatch"
                 out.append((key(k), desc("stack arguments are at %#x, [fp + %d] is %#x" % (args_base, r["sa_from_sa"], got))))
         # ---- the body: poison everything the frame declares as the body's
         body_written = set()
